@@ -149,25 +149,28 @@ Definition callee_sig (g : genv) (lf : ident -> lres) (al : option lang) (c : ca
   end.
 
 (* visit_call_args_with_signature_info: with a signature, arguments are zipped with the parameters,
-   so an argument beyond the last parameter is not visited at all *)
+   so an argument beyond the last parameter is not visited at all -- unless the source has the
+   extra loop over the remaining arguments (generated flag [gen_visit_excess_args]; finding
+   c10-excess-args, fixes/c10-resolve-excess-call-args.diff) *)
 Fixpoint visited (g : genv) (lf : ident -> lres) (al : option lang) (gs : list guard) : bool :=
   match gs with
   | [] => true
   | gd :: outer =>
       visited g lf al outer &&
       match callee_sig g lf al (g_callee gd) with
-      | Some s => Nat.ltb (g_pos gd) (length s)
+      | Some s => gen_visit_excess_args || Nat.ltb (g_pos gd) (length s)
       | None => true
       end
   end.
 
-(* the top of ty_color_stack: pushed (even when None) for every argument matched with a parameter *)
+(* the top of ty_color_stack: pushed (even when None) for every argument matched with a parameter;
+   an argument that is not matched with a parameter sees the colour of its surroundings *)
 Fixpoint colour (g : genv) (lf : ident -> lres) (al : option lang) (gs : list guard) : option ident :=
   match gs with
   | [] => None
   | gd :: outer =>
       match callee_sig g lf al (g_callee gd) with
-      | Some s => nth (g_pos gd) s None
+      | Some s => if Nat.ltb (g_pos gd) (length s) then nth (g_pos gd) s None else colour g lf al outer
       | None => colour g lf al outer
       end
   end.
@@ -309,6 +312,10 @@ Section Visit.
 End Visit.
 
 (* ---- reading the result ---- *)
+
+(* the index of the declaring occurrence, for definitions made by the program *)
+Definition user_id (d : def) : option Z :=
+  match d with DLocal i | DParam i | DConst i | DFunc i _ => Some i | _ => None end.
 
 Definition is_error (r : res) : bool :=
   match r with ROk _ | RSkipped => false | _ => true end.
